@@ -333,6 +333,16 @@ def r6_rng(ctx):
         else:
             okk = False
     ctx.check("R6", qn + "|shuffle-uses-random_state", okk, "shuffle=True permutes the block ids with check_random_state(self.random_state)", bad="shuffle=True does not use self.random_state (not reproducible) or does not shuffle", fn=qn)
+    # a seed gives the same folds on every split() call only if the object keeps the SEED: a generator object created once in
+    # the constructor is consumed by the first split and the second one differs (and clone() copies a half-used generator)
+    for cq in (BSS, BKF):
+        init = ctx.pkg.find_method(cq, "__init__")
+        if init is None:
+            continue
+        vals = {e.data[2] for p in ctx.paths(init.qual) if p.normal for e in p.events if e.kind == "setattr" and e.data[0] == Q.SELF and e.data[1] == "random_state"}
+        seeded = any(v[0] == "call" and callee(v) in ("sklearn.utils.check_random_state", "sklearn.utils.validation.check_random_state", "numpy.random.RandomState", "numpy.random.default_rng") for v in vals)
+        ctx.check("R6", cq + ".__init__|keeps-the-seed", True if vals == {("param", "random_state")} else (False if seeded else None), "the constructor stores random_state as given",
+                  bad="the constructor stores a generator object instead of the seed: consecutive split() calls on one instance give different folds", fn=init.qual)
     qn = MS + ".train_test_split"
     for p in ctx.paths(qn):
         if p.exit != "return":
